@@ -860,6 +860,112 @@ impl PagedCachedFile {
     }
 }
 
+#[cfg(redb_verif)]
+impl PagedCachedFile {
+    /// Verification hook: the offsets held by the write buffer and by the read cache, the
+    /// committed-pages flag and the two byte counters
+    fn verif_snapshot(&self) -> (Vec<u64>, Vec<u64>, bool, usize, usize) {
+        let mut wb = vec![];
+        for stripe in &self.write_buffer {
+            let lock = stripe.lock().unwrap();
+            wb.extend(lock.cache.iter().map(|(k, _)| *k));
+        }
+        let mut rc = vec![];
+        for slot in &self.read_cache {
+            let lock = slot.read().unwrap();
+            rc.extend(lock.iter().map(|(k, _)| *k));
+        }
+        wb.sort_unstable();
+        rc.sort_unstable();
+        (
+            wb,
+            rc,
+            self.committed_pages_buffered.load(Ordering::Acquire),
+            self.read_cache_bytes.load(Ordering::Acquire),
+            self.write_buffer_bytes.load(Ordering::Acquire),
+        )
+    }
+}
+
+/// Verification hook: the page cache on its own (the type itself is private to this module)
+#[cfg(redb_verif)]
+pub(crate) struct VerifCache {
+    inner: PagedCachedFile,
+}
+
+#[cfg(redb_verif)]
+impl VerifCache {
+    pub(crate) fn new(
+        backend: Box<dyn StorageBackend>,
+        page_size: u64,
+        max_cache_size: usize,
+    ) -> Result<Self, DatabaseError> {
+        Ok(Self {
+            inner: PagedCachedFile::new(backend, page_size, max_cache_size)?,
+        })
+    }
+
+    pub(crate) fn read(&self, offset: u64, len: usize, clean: bool) -> Result<Vec<u8>> {
+        let hint = if clean {
+            PageHint::Clean
+        } else {
+            PageHint::None
+        };
+        Ok(self.inner.read(offset, len, hint)?.to_vec())
+    }
+
+    // Obtains the writable page, copies `fill` over its beginning, drops it
+    pub(crate) fn write(&self, offset: u64, len: usize, overwrite: bool, fill: &[u8]) -> Result {
+        let mut page = self.inner.write(offset, len, overwrite)?;
+        page.mem_mut()[..fill.len()].copy_from_slice(fill);
+        Ok(())
+    }
+
+    pub(crate) fn flush(&self) -> Result {
+        self.inner.flush()
+    }
+
+    pub(crate) fn sync_file(&self) -> Result {
+        self.inner.sync_file()
+    }
+
+    pub(crate) fn write_barrier(&self) {
+        self.inner.write_barrier();
+    }
+
+    pub(crate) fn resize(&self, len: u64) -> Result {
+        self.inner.resize(len)
+    }
+
+    pub(crate) fn invalidate_cache(&self, offset: u64, len: usize) {
+        self.inner.invalidate_cache(offset, len);
+    }
+
+    pub(crate) fn invalidate_cache_all(&self) {
+        self.inner.invalidate_cache_all();
+    }
+
+    pub(crate) fn cancel_pending_write(&self, offset: u64, len: usize) {
+        self.inner.cancel_pending_write(offset, len);
+    }
+
+    pub(crate) fn discard_write_buffer(&self) {
+        self.inner.discard_write_buffer();
+    }
+
+    pub(crate) fn check_io_errors(&self) -> Result {
+        self.inner.check_io_errors()
+    }
+
+    pub(crate) fn close(&self) -> Result {
+        self.inner.close()
+    }
+
+    pub(crate) fn snapshot(&self) -> (Vec<u64>, Vec<u64>, bool, usize, usize) {
+        self.inner.verif_snapshot()
+    }
+}
+
 #[cfg(test)]
 mod test {
     use crate::StorageBackend;
